@@ -84,6 +84,13 @@ func c06burstRun(out *rec.Out, k, w, n, g int, stats map[string]int) {
 		}
 	}()
 	in.Quiesce(6 * timeSecond)
+	if g == 2 {
+		// the FIRST two deliveries overlap for sure: a passive consumer of the instance holds each of them until the other
+		// has got as far (or 300 ms have passed) — both have walked past the same consumers when either goes on
+		if err := in.Proc.RegisterEventConsumer(&c06rendezvous{arrived: make(chan struct{}, 2), both: make(chan struct{})}); err == nil {
+			stats["first_two_deliveries_overlap"]++
+		}
+	}
 	evs := make([]event.IEvent, 0, n+1)
 	for i := 0; i < n; i++ {
 		evs = append(evs, event.NewSignalEvent("zz"))
@@ -128,4 +135,29 @@ func c06burstRun(out *rec.Out, k, w, n, g int, stats map[string]int) {
 	}
 	out.Line("c06burst done %d", rec.B(in.WaitComplete(3*timeSecond)))
 	in.Stop(2 * timeSecond)
+}
+
+// c06rendezvous consumes everything; its first two calls wait for each other.
+type c06rendezvous struct {
+	mu      sync.Mutex
+	n       int
+	arrived chan struct{}
+	both    chan struct{}
+}
+
+func (r *c06rendezvous) ConsumeEvent(ev event.IEvent) (event.ConsumptionResult, error) {
+	r.mu.Lock()
+	r.n++
+	k := r.n
+	if k == 2 {
+		close(r.both)
+	}
+	r.mu.Unlock()
+	if k <= 2 {
+		select {
+		case <-r.both:
+		case <-time.After(300 * time.Millisecond):
+		}
+	}
+	return event.Consumed, nil
 }
